@@ -1,4 +1,5 @@
 import BezierVerif.Lemmas.RoundingMore
+import BezierVerif.Lemmas.RoundingTriPy
 import Mathlib.Algebra.Order.Field.Rat
 import Mathlib.Algebra.Order.Ring.Rat
 
@@ -18,8 +19,15 @@ Scale: the same routine run on the absolute values with the absolute weights –
 specialisation this is the absolute blossom (`C09.specialize_is_blossom` applied to the absolute
 data), i.e. `harness/props/c09.py: abs_blossom_scale`.
 
-Proven exponents: specialisation and generic subdivision (Fortran workspace path) `3d`; table
-branch `N + 1`, `N = (d+1)(d+2)/2 ≤ 15`.  Comparator constant of the script: `4(3d+6)`.
+The Python variant (`Model.Py.triSpecializeRow`: dictionary keyed by ascending tuples, products with
+the matrices `make_transform`) is covered under two further hypotheses that binary64 satisfies:
+the rounding is idempotent (`fl (fl x) = fl x`, `fl 0 = 0`) and the weights are numbers of the
+arithmetic (`fl w = w`).  Then each matrix product *is* one round, bit for bit
+(`TriPy.rowMulCols_makeTransform_fl`), and the same bound follows.
+
+Proven exponents: specialisation and generic subdivision (Fortran workspace path and Python
+dictionary path) `3d`; table branch `N + 1`, `N = (d+1)(d+2)/2 ≤ 15`.  Comparator constant of the
+script: `4(3d+6)`.
 -/
 
 set_option linter.unusedSectionVars false
@@ -91,6 +99,60 @@ theorem subdivide_tables_scale (d : ℕ) (row : List F) (h : row.length = numNod
       = F90.triSubdivideGenericRow subWeights d (row.map (|·|)) qt := by
   rw [triSubdivMat_abs, rowMul_triSubdivMat _ _ _ (by simpa using h)]
 
+/-! ### the Python variant -/
+
+/-- **`specialize_triangle` (Python) in rounded arithmetic**: the call returns, and every entry is
+    within `((1+u)^(3d) - 1) ·` absolute blossom of the exact result (the exact results of the two
+    variants agree, `C09.specialize_variants_agree`) -/
+theorem specialize_rounding_py (fl : F → F) (u : F) (hu : 0 ≤ u) (hfl : ∀ x, |fl x - x| ≤ u * |x|)
+    (hidem : ∀ x, fl (fl x) = fl x) (d : ℕ) (hd : 1 ≤ d) (row : List F) (h : row.length = numNodes d)
+    (wa wb wc : Bary F) (ha : TriPy.BaryFix fl wa) (hb : TriPy.BaryFix fl wb) (hc : TriPy.BaryFix fl wc) :
+    ∃ out, Py.triSpecializeRow d (row.map Fl.mk) (mkBary fl wa) (mkBary fl wb) (mkBary fl wc) = .ok out ∧
+      ∀ i, |(seq out i).val - seq (F90.triSpecializeRow d row wa wb wc) i|
+        ≤ ((1+u)^(3*d) - 1)
+            * seq (F90.triSpecializeRow d (row.map (|·|)) (absBary wa) (absBary wb) (absBary wc)) i := by
+  have S : StdModel fl u := ⟨hu, hfl⟩
+  have h0 : fl 0 = 0 := by have := hfl 0; simpa using this
+  obtain ⟨out, e, H⟩ := TriPy.py_triSpecialize_near S ⟨hidem, h0⟩ d hd row h wa wb wc ha hb hc
+  exact ⟨out, e, fun i => H.bound S i⟩
+
+/-- **generic branch of `subdivide_nodes` (Python)**, each of the four pieces -/
+theorem subdivide_generic_rounding_py (fl : F → F) (u : F) (hu : 0 ≤ u)
+    (hfl : ∀ x, |fl x - x| ≤ u * |x|) (hidem : ∀ x, fl (fl x) = fl x) (hD : DyadicExact fl 1) (d : ℕ)
+    (hd : 1 ≤ d) (row : List F) (h : row.length = numNodes d) (qt : Quarter) :
+    ∃ out, Py.triSubdivideGenericRow (subWeights (K := Fl F fl)) d (row.map Fl.mk) qt = .ok out ∧
+      ∀ i, |(seq out i).val - seq (F90.triSubdivideGenericRow subWeights d row qt) i|
+        ≤ ((1+u)^(3*d) - 1) * seq (F90.triSubdivideGenericRow subWeights d (row.map (|·|)) qt) i := by
+  have S : StdModel fl u := ⟨hu, hfl⟩
+  have h0 : fl 0 = 0 := by have := hfl 0; simpa using this
+  obtain ⟨out, e, H⟩ := TriPy.py_triSubdivideGeneric_near S ⟨hidem, h0⟩ hD d hd row h qt
+  exact ⟨out, e, fun i => H.bound S i⟩
+
+/-- `subdivide_nodes` (Python) dispatches to the generic branch outside degree 1–4 -/
+theorem subdivide_nodes_py_generic_fl (fl : F → F) (tables : ℕ → Quarter → List (List (Fl F fl)))
+    (W : SubWeights (Fl F fl)) (d : ℕ) (hd : ¬ (1 ≤ d ∧ d ≤ 4)) (row : List (Fl F fl)) (qt : Quarter) :
+    Py.triSubdivideNodesRow tables W d row qt = Py.triSubdivideGenericRow W d row qt := by
+  unfold Py.triSubdivideNodesRow
+  rw [if_neg hd]
+
+/-- comparator form for the Python variant -/
+theorem specialize_comparator_py (fl : F → F) (u : F) (hu : 0 ≤ u) (hfl : ∀ x, |fl x - x| ≤ u * |x|)
+    (hu53 : u ≤ 1 / 2^53) (hidem : ∀ x, fl (fl x) = fl x) (d : ℕ) (hd : 1 ≤ d) (hd' : d ≤ 2^38)
+    (row : List F) (h : row.length = numNodes d)
+    (wa wb wc : Bary F) (ha : TriPy.BaryFix fl wa) (hb : TriPy.BaryFix fl wb) (hc : TriPy.BaryFix fl wc) :
+    ∃ out, Py.triSpecializeRow d (row.map Fl.mk) (mkBary fl wa) (mkBary fl wb) (mkBary fl wc) = .ok out ∧
+      ∀ i, |(seq out i).val - seq (F90.triSpecializeRow d row wa wb wc) i|
+        ≤ (4 * (3 * (d : F) + 6)) * u
+            * seq (F90.triSpecializeRow d (row.map (|·|)) (absBary wa) (absBary wb) (absBary wc)) i := by
+  have S : StdModel fl u := ⟨hu, hfl⟩
+  have h0 : fl 0 = 0 := by have := hfl 0; simpa using this
+  obtain ⟨out, e, H⟩ := TriPy.py_triSpecialize_near S ⟨hidem, h0⟩ d hd row h wa wb wc ha hb hc
+  have hk : ((3 * d : ℕ) : F) * u ≤ 1 / 100 :=
+    ku_small u hu hu53 _ (by have : (2:ℕ)^40 = 4 * 2^38 := by norm_num
+                             omega)
+  have hd0 : (0 : F) ≤ (d : F) := Nat.cast_nonneg _
+  exact ⟨out, e, fun i => (H.seq S i).comparator_le S hk _ (by push_cast; linarith)⟩
+
 /-! ### comparator forms: the constant `4(3d+6)` of `c09.py` (`u ≤ 2⁻⁵³`) -/
 
 /-- Fortran workspace path (specialisation, generic subdivision): `1.01·3d ≤ 4(3d+6)`, every
@@ -158,6 +220,32 @@ example (d : ℕ) (row : List ℚ) (wa wb wc : Bary ℚ) (i : ℕ) :
     (by intro x
         have : x * (1 + 1/1024) - x = 1/1024 * x := by ring
         rw [this, abs_mul]; norm_num) d row wa wb wc i
+
+/-- generic subdivision in the inexact arithmetic `flDy` (dyadic numbers exact, `u = 2⁻¹⁰`) -/
+example (d : ℕ) (row : List ℚ) (qt : Quarter) (i : ℕ) :
+    |(seq (F90.triSubdivideGenericRow (subWeights (K := Fl ℚ flDy)) d (row.map Fl.mk) qt) i).val
+        - seq (F90.triSubdivideGenericRow subWeights d row qt) i|
+      ≤ ((1 + 1/1024 : ℚ)^(3*d) - 1) * seq (F90.triSubdivideGenericRow subWeights d (row.map (|·|)) qt) i :=
+  subdivide_generic_rounding_f90 flDy (1/1024) flDy_std.hu flDy_std.hfl (flDy_dyadic 1 (by norm_num))
+    d row qt i
+
+/-- the Python variant: exact arithmetic satisfies all hypotheses (idempotence, weights of the
+    arithmetic), the call returns the exact result -/
+example (d : ℕ) (hd : 1 ≤ d) (row : List ℚ) (h : row.length = numNodes d) (wa wb wc : Bary ℚ) :
+    ∃ out, Py.triSpecializeRow d (row.map Fl.mk) (mkBary (id : ℚ → ℚ) wa) (mkBary id wb) (mkBary id wc)
+        = .ok out ∧ ∀ i, (seq out i).val = seq (F90.triSpecializeRow d row wa wb wc) i := by
+  obtain ⟨out, e, H⟩ := specialize_rounding_py (F := ℚ) id 0 le_rfl (by intro x; simp) (fun _ => rfl)
+    d hd row h wa wb wc ⟨rfl, rfl, rfl⟩ ⟨rfl, rfl, rfl⟩ ⟨rfl, rfl, rfl⟩
+  exact ⟨out, e, fun i => by simpa [sub_eq_zero] using H i⟩
+
+/-- the Python generic subdivision in an idempotent *inexact* arithmetic (`TriPy.flFlush`: dyadic
+    numbers kept, everything else flushed to zero, `u = 1`): all hypotheses are satisfiable together -/
+example (d : ℕ) (hd : 1 ≤ d) (row : List ℚ) (h : row.length = numNodes d) (qt : Quarter) :
+    ∃ out, Py.triSubdivideGenericRow (subWeights (K := Fl ℚ TriPy.flFlush)) d (row.map Fl.mk) qt = .ok out ∧
+      ∀ i, |(seq out i).val - seq (F90.triSubdivideGenericRow subWeights d row qt) i|
+        ≤ ((1 + 1 : ℚ)^(3*d) - 1) * seq (F90.triSubdivideGenericRow subWeights d (row.map (|·|)) qt) i :=
+  subdivide_generic_rounding_py TriPy.flFlush 1 TriPy.flFlush_std.hu TriPy.flFlush_std.hfl
+    TriPy.flFlush_idem.idem (TriPy.flFlush_dyadic 1 (by norm_num)) d hd row h qt
 
 example : DyadicExact (id : ℚ → ℚ) 1 := fun _ _ _ _ => rfl
 
